@@ -400,6 +400,19 @@ theorem avg_width_partial (gs : List GlyphMetric) (h : (nonZero (gs.map (·.adva
   · rw [avgOfF32_exact _ _ (by omega) (nonZero_length_le_sum _) h]
     simp [avgOfExact, hc]
 
+/-- The repair proposed in /verif/fixes/C17-os2-avg.patch (integer arithmetic) satisfies the full
+    statement, for every glyph list. -/
+theorem avg_width_fixed_full (gs : List GlyphMetric) :
+    xAvgCharWidthFixed (buildMetrics gs).longMetrics gs.length =
+      satI16 (avgOfExact (nonZero (gs.map (·.advance))).length (nonZero (gs.map (·.advance))).sum) := by
+  unfold xAvgCharWidthFixed
+  rw [avg_width_spec]
+  simp only
+  by_cases hc : (nonZero (gs.map (·.advance))).length = 0
+  · simp [avgOfInt, avgOfExact, hc, satI16]
+  · simp only [avgOfInt, avgOfExact, hc, if_false]
+    rw [otRound_div_eq _ _ (by omega)]
+
 /-- 257 glyphs of advance 16384 and 256 of advance 16385: mean 16384.499…, the code answers 16385. -/
 def avgWitness : List GlyphMetric :=
   List.replicate 257 ⟨16384, 0, none⟩ ++ List.replicate 256 ⟨16385, 0, none⟩
@@ -577,6 +590,7 @@ end Fontc.C17
 #print axioms Fontc.C17.avg_width_spec
 #print axioms Fontc.C17.avg_width_partial
 #print axioms Fontc.C17.avg_width_counterexample
+#print axioms Fontc.C17.avg_width_fixed_full
 #print axioms Fontc.C17.first_last_char_spec
 #print axioms Fontc.C17.unicodeRanges_sorted_disjoint
 #print axioms Fontc.C17.unicode_range_spec
